@@ -358,8 +358,9 @@ def oracle_run(w, props, bad, tag=""):
         cap = sched.get("max_n_steps")
         if not (betas[-1] == 1.0 or (cap is not None and K == cap)):
             bad.append(f"C06{tag}: final temperature {betas[-1]}")
-        if sched.get("n_steps") and K != sched["n_steps"]:
-            bad.append(f"C06{tag}: fixed schedule of {sched['n_steps']} steps performed {K} iterations")
+        want_k = sched.get("n_steps") if cap is None else min(cap, sched.get("n_steps") or cap)
+        if sched.get("n_steps") and K != want_k:
+            bad.append(f"C06{tag}: fixed schedule of {sched['n_steps']} steps (cap {cap}) performed {K} iterations")
         if cap is not None and K > cap:
             bad.append(f"C06{tag}: step cap exceeded")
         if sched.get("min_step") and not all(b2 - b1 >= sched["min_step"] or b2 == 1.0 for b1, b2 in zip(betas, betas[1:])):
